@@ -101,6 +101,9 @@ pub(crate) mod zip_writer {
         pub(super) writing_to_central_extra_field_only: bool,
         pub(super) writing_raw: bool,
         pub(super) comment: Vec<u8>,
+        /// End of the archive that is being appended to; the rewritten central directory must not
+        /// end before it (0 for a new archive)
+        pub(super) overwritten_end: u64,
     }
 }
 pub use zip_writer::ZipWriter;
@@ -305,6 +308,7 @@ impl<A: Read + Write + io::Seek> ZipWriter<A> {
             .map(|_| central_header_to_zip_file(&mut readwriter, archive_offset))
             .collect::<Result<Vec<_>, _>>()?;
 
+        let overwritten_end = readwriter.seek(io::SeekFrom::End(0))?;
         let _ = readwriter.seek(io::SeekFrom::Start(directory_start)); // seek directory_start to overwrite it
 
         Ok(ZipWriter {
@@ -316,6 +320,7 @@ impl<A: Read + Write + io::Seek> ZipWriter<A> {
             writing_to_central_extra_field_only: false,
             comment: footer.zip_file_comment,
             writing_raw: true, // avoid recomputing the last file's header
+            overwritten_end,
         })
     }
 }
@@ -334,6 +339,7 @@ impl<W: Write + io::Seek> ZipWriter<W> {
             writing_to_central_extra_field_only: false,
             writing_raw: false,
             comment: Vec::new(),
+            overwritten_end: 0,
         }
     }
 
@@ -854,49 +860,64 @@ impl<W: Write + io::Seek> ZipWriter<W> {
         {
             let writer = self.inner.get_plain();
 
-            let central_start = writer.stream_position()?;
-            for file in self.files.iter() {
-                write_central_directory_header(writer, file)?;
-            }
-            let central_size = writer.stream_position()? - central_start;
+            let mut central_start = writer.stream_position()?;
+            loop {
+                for file in self.files.iter() {
+                    write_central_directory_header(writer, file)?;
+                }
+                let central_size = writer.stream_position()? - central_start;
 
-            if self.files.len() > spec::ZIP64_ENTRY_THR
-                || central_size.max(central_start) > spec::ZIP64_BYTES_THR
-            {
-                let zip64_footer = spec::Zip64CentralDirectoryEnd {
-                    version_made_by: DEFAULT_VERSION as u16,
-                    version_needed_to_extract: DEFAULT_VERSION as u16,
+                if self.files.len() > spec::ZIP64_ENTRY_THR
+                    || central_size.max(central_start) > spec::ZIP64_BYTES_THR
+                {
+                    let zip64_footer = spec::Zip64CentralDirectoryEnd {
+                        version_made_by: DEFAULT_VERSION as u16,
+                        version_needed_to_extract: DEFAULT_VERSION as u16,
+                        disk_number: 0,
+                        disk_with_central_directory: 0,
+                        number_of_files_on_this_disk: self.files.len() as u64,
+                        number_of_files: self.files.len() as u64,
+                        central_directory_size: central_size,
+                        central_directory_offset: central_start,
+                    };
+
+                    zip64_footer.write(writer)?;
+
+                    let zip64_footer = spec::Zip64CentralDirectoryEndLocator {
+                        disk_with_central_directory: 0,
+                        end_of_central_directory_offset: central_start + central_size,
+                        number_of_disks: 1,
+                    };
+
+                    zip64_footer.write(writer)?;
+                }
+
+                let number_of_files = self.files.len().min(spec::ZIP64_ENTRY_THR) as u16;
+                let footer = spec::CentralDirectoryEnd {
                     disk_number: 0,
                     disk_with_central_directory: 0,
-                    number_of_files_on_this_disk: self.files.len() as u64,
-                    number_of_files: self.files.len() as u64,
-                    central_directory_size: central_size,
-                    central_directory_offset: central_start,
+                    zip_file_comment: self.comment.clone(),
+                    number_of_files_on_this_disk: number_of_files,
+                    number_of_files,
+                    central_directory_size: central_size.min(spec::ZIP64_BYTES_THR) as u32,
+                    central_directory_offset: central_start.min(spec::ZIP64_BYTES_THR) as u32,
                 };
 
-                zip64_footer.write(writer)?;
+                footer.write(writer)?;
 
-                let zip64_footer = spec::Zip64CentralDirectoryEndLocator {
-                    disk_with_central_directory: 0,
-                    end_of_central_directory_offset: central_start + central_size,
-                    number_of_disks: 1,
-                };
-
-                zip64_footer.write(writer)?;
+                let end = writer.stream_position()?;
+                if end >= self.overwritten_end {
+                    break;
+                }
+                // The directory of the archive that is being appended to was longer than the new
+                // one: its tail, including the old end of central directory record, would remain
+                // behind the new one and be found first by a reader. Move the new directory so
+                // that it ends where the old archive did.
+                let gap = self.overwritten_end - end;
+                writer.seek(io::SeekFrom::Start(central_start))?;
+                io::copy(&mut io::repeat(0).take(gap), writer)?;
+                central_start += gap;
             }
-
-            let number_of_files = self.files.len().min(spec::ZIP64_ENTRY_THR) as u16;
-            let footer = spec::CentralDirectoryEnd {
-                disk_number: 0,
-                disk_with_central_directory: 0,
-                zip_file_comment: self.comment.clone(),
-                number_of_files_on_this_disk: number_of_files,
-                number_of_files,
-                central_directory_size: central_size.min(spec::ZIP64_BYTES_THR) as u32,
-                central_directory_offset: central_start.min(spec::ZIP64_BYTES_THR) as u32,
-            };
-
-            footer.write(writer)?;
         }
 
         Ok(())
